@@ -29,7 +29,8 @@ ASSUMPTIONS = [
     'match spans are compared only when the pattern has no repeated body that can match the empty string and no '
     'back-reference to a group inside a repetition/alternative (engines legitimately differ there); '
     'otherwise only the leftmost start and membership of the end in the set of possible ends',
-    'a back-reference to a group that did not participate in the match: no verdict',
+    'a back-reference to a group that did not participate in the match, or to a group inside a quantified body '
+    'that can match the empty string (a last empty iteration may or may not overwrite the capture): no verdict',
     'invalid patterns: only constructions that are invalid under XSD 1.0, XSD 1.1 and F&O grammars alike',
     "case-insensitive mode: case-variants by fn:lower-case/fn:upper-case = python str.lower()/str.upper()",
     'fn check: subjects consist of XML characters only; with flag q the replacement string is literal (F&O 3.1); '
@@ -203,7 +204,7 @@ class _Ctx:
             node, ngroups = G.to_ref(ast, xpath, xflag)
         except (R.RefRegexError, ValueError):
             parsed = None
-        if parsed is not None and not parsed.doubts:
+        if parsed is not None and not parsed.doubts and not R.backref_engine_dependent(parsed.node):
             if parsed.node != node or parsed.ngroups != ngroups:
                 if generated:
                     raise HarnessError(f'reference parser and generator disagree on {text!r}: {parsed.node} vs {node}')
@@ -667,7 +668,7 @@ def judge_fn(case, rec: Recorder | None = None) -> list[Disc]:
             parsed = R.parse(text, xpath=True, xsd_version=v, flags=f)
             if 'q' not in f:
                 node, ng = G.to_ref(a, True, 'x' in f)
-                if parsed.doubts or node != parsed.node or ng != parsed.ngroups:
+                if parsed.doubts or node != parsed.node or ng != parsed.ngroups or R.backref_engine_dependent(node):
                     return None
         except (R.RefRegexError, ValueError, IndexError, TypeError):
             return None
